@@ -109,7 +109,7 @@ pub fn vt_chars_skip_take(s: &str, a: usize, n: usize) -> (r: String)
 _CASES = reference.cases()
 _N = sum(len(v) for v in _CASES.values())
 WITNESSES = [
-    {"match": r"builtins\\.", "kind": "prelude-reference", "props": ["C32"], "input": _CASES, "timeout_each": 60, "expect": {}, "timeout": 600,
+    {"match": r"builtins\.", "kind": "prelude-reference", "props": ["C32"], "input": _CASES, "timeout_each": 60, "expect": {}, "timeout": 600,
      "note": "%d calls of the prelude functions compared with reference implementations" % _N},
 ]
 BOUNDED = [
